@@ -1,1 +1,291 @@
-import Abmarl.Spec.Adapters
+import Abmarl.Lemmas.Adapters
+import Abmarl.Model.StubSim
+import Abmarl.Props.C01
+/-!
+# C15 — Gym and OpenSpiel adapters preserve the episode and let it finish
+
+* `C15_gym_projection` — `GymWrapper.reset/step` return exactly the single learning agent's entries
+  of the manager's output of the one manager call they make (or pass the manager's rejection on).
+* `C15_openspiel` — for every simulation satisfying `WF` with at least one learning agent, for the
+  turn-based and the simultaneous (all-step) manager and for **every** sequence of adapter calls
+  (explicit resets and steps with well-formed action lists), the model's play-through satisfies
+  `specC15`: every learning agent is present in every time step's observations, legal actions and
+  rewards; only actions of agents not yet done are forwarded, unchanged; a time step is LAST exactly
+  when the manager reports `__all__`; the call after LAST starts a new episode; in turn-based play the
+  current player can still act; **every step call forwards exactly one manager call** (no fake step,
+  no rejection), so a play-through reaches LAST exactly when the underlying episode ends.
+* `c15_*` — readings of `specC15`.
+-/
+namespace Abmarl
+variable {σ α ω ι : Type}
+
+theorem lookup_some_of_mem_keys {β : Type} (l : List (Aid × β)) (a : Aid) (h : a ∈ keys l) :
+    ∃ v, l.lookup a = some v := by
+  induction l with
+  | nil => cases h
+  | cons p ps ih =>
+    by_cases hp : a = p.1
+    · exact ⟨p.2, by simp [List.lookup, hp]⟩
+    · have hne : (a == p.1) = false := by simpa using hp
+      have : a ∈ keys ps := by
+        simp only [keys, List.map_cons, List.mem_cons] at h
+        rcases h with h | h
+        · exact absurd h hp
+        · exact h
+      obtain ⟨v, hv⟩ := ih this
+      exact ⟨v, by simp [List.lookup, hne, hv]⟩
+
+/-- one gym call under the manager invariant: it returns the single learning agent's entries of the
+manager's output (or passes the rejection on) — never a `KeyError` -/
+theorem gymCall_sound [DecidableEq α] [DecidableEq ω] [DecidableEq ι] {S : SimIface σ α ω ι} {k : MKind}
+    (hW : WF S k) (hk : k ≠ .dynamic) {ag : Aid} (hag : S.learners = [ag]) (m : MState σ) (g : GSt)
+    (c : Option α) (hI : g.started = true → g.over = false → Inv S k m g)
+    (hp : c.isSome = true → g.started = true ∧ g.over = false) :
+    specGym ag c (gymCall S k ag m c).1 (gymCall S k ag m c).2.1 = true ∧
+    ((gNext g (gymCall S k ag m c).2.1).started = true → (gNext g (gymCall S k ag m c).2.1).over = false →
+      Inv S k (gymCall S k ag m c).2.2 (gNext g (gymCall S k ag m c).2.1)) := by
+  have hagL : ag ∈ S.learners := by rw [hag]; simp
+  have hpart := participating_eq_learners (S := S) hk
+  cases c with
+  | none =>
+    obtain ⟨h01, h07, _, hinv'⟩ := reset_sound (α := α) hW m g
+    obtain ⟨rs, hrs⟩ : ∃ rs, rs = runOp (α := α) S k m .reset := ⟨_, rfl⟩
+    rw [← hrs] at h01 h07 hinv'
+    have hop : rs.1.op = .reset := by rw [hrs]; exact runOp_op S k m _
+    obtain ⟨obs, hobs⟩ : ∃ obs, rs.1.res = .resetOk obs := by
+      cases hr : rs.1.res with
+      | resetOk o => exact ⟨o, rfl⟩
+      | stepOk o => simp [c01Entry, hop, hr] at h01
+      | err e => simp [c01Entry, hop, hr] at h01
+    have hin : ag ∈ keys obs := by
+      cases k with
+      | dynamic => exact absurd rfl hk
+      | allStep =>
+        simp only [c07Entry, hop, hobs, Bool.and_eq_true, sameSet, List.all_eq_true, decide_eq_true_eq] at h07
+        exact h07.1.2 ag hagL
+      | turnBased =>
+        simp only [c07Entry, hop, hobs, Bool.and_eq_true, beq_iff_eq] at h07
+        have h1 : keys obs = S.learners.take 1 := h07.1
+        rw [h1, hag]; simp
+    obtain ⟨o, ho⟩ := lookup_some_of_mem_keys obs ag hin
+    have hE : gymCall (α := α) S k ag m none = (.ok ⟨o, none, none, none⟩, rs.1, rs.2) := by
+      simp only [gymCall, ← hrs, hobs, ho]
+    rw [hE]
+    exact ⟨by simp [specGym, hobs, ho], hinv'⟩
+  | some a =>
+    obtain ⟨hst, hov⟩ := hp rfl
+    have hInv := hI hst hov
+    obtain ⟨h01, h07, _, hinv'⟩ :=
+      op_sound hW m g (.step [(ag, a)]) (fun _ _ => hInv) (fun _ _ => ⟨hst, hov⟩)
+    obtain ⟨r, hr⟩ : ∃ r, r = runOp S k m (.step [(ag, a)]) := ⟨_, rfl⟩
+    rw [← hr] at h01 h07 hinv'
+    have hop : r.1.op = .step [(ag, a)] := by rw [hr]; exact runOp_op S k m _
+    have h01' : c01Step k S.n S.learning m.shuffle g [(ag, a)] r.1 = true := by
+      simpa [c01Entry, hop] using h01
+    cases hres : r.1.res with
+    | resetOk o => simp [c01Step, hres] at h01'
+    | err er =>
+      have hE : gymCall S k ag m (some a) = (.error er, r.1, r.2) := by
+        simp only [gymCall, ← hr, hres]
+      rw [hE]
+      exact ⟨by simp [specGym, hres], hinv'⟩
+    | stepOk out =>
+      have u := c01Step_unpack h01' hres
+      have hnR : ag ∉ g.R := by
+        have := u.notBlocked
+        simpa using this
+      have hin : ag ∈ keys out.obs := by
+        cases hAD : out.allDone with
+        | true =>
+          rcases u.final hAD ag (by rw [hpart]; exact hagL) with h | h
+          · exact absurd h hnR
+          · exact h
+        | false =>
+          rw [← u.keysD]
+          cases k with
+          | dynamic => exact absurd rfl hk
+          | allStep =>
+            simp only [c07Entry, hop, hres, hAD, Bool.false_or, Bool.and_eq_true, sameSet, List.all_eq_true,
+              decide_eq_true_eq] at h07
+            apply h07.1.2 ag
+            have hagL' : ag ∈ (List.range S.n).filter S.learning := hagL
+            exact List.mem_filter.mpr ⟨hagL', by simpa using hnR⟩
+          | turnBased =>
+            simp only [c07Entry, hop, hres, hAD, Bool.false_or, Bool.and_eq_true, beq_iff_eq] at h07
+            obtain ⟨pre, live, post, hrot, _, _, _, hd⟩ := turnExpect_shape h07.1
+            have hlive : live ∈ S.learners := by
+              have hm : live ∈ rotAfter ((List.range S.n).filter S.learning) g.holder := by rw [hrot]; simp
+              unfold rotAfter at hm
+              cases hh : g.holder with
+              | none => rw [hh] at hm; exact hm
+              | some x => rw [hh] at hm; exact (mem_rotate _ _ _).mp hm
+            rw [hag] at hlive
+            simp only [List.mem_singleton] at hlive
+            rw [hd, ← hlive]
+            simp [keys]
+      obtain ⟨o, ho⟩ := lookup_some_of_mem_keys out.obs ag hin
+      obtain ⟨rw', hrw⟩ := lookup_some_of_mem_keys out.rewards ag (by rw [u.keysR]; exact hin)
+      obtain ⟨d, hd⟩ := lookup_some_of_mem_keys out.dones ag (by rw [u.keysD]; exact hin)
+      obtain ⟨i, hi⟩ := lookup_some_of_mem_keys out.infos ag (by rw [u.keysI]; exact hin)
+      have hE : gymCall S k ag m (some a) = (.ok ⟨o, some rw', some d, some i⟩, r.1, r.2) := by
+        simp only [gymCall, ← hr, hres, ho, hrw, hd, hi]
+      rw [hE]
+      exact ⟨by simp [specGym, hres, ho, hrw, hd, hi], hinv'⟩
+
+/-- **C15 (gym)** for every simulation with a single learning agent, both manager kinds and every
+sequence of gym calls. -/
+theorem C15_gym_projection [DecidableEq α] [DecidableEq ω] [DecidableEq ι] (S : SimIface σ α ω ι)
+    (k : MKind) (hW : WF S k) (hk : k ≠ .dynamic) (ag : Aid) (hag : S.learners = [ag]) :
+    ∀ (calls : List (Option α)) (m : MState σ) (g : GSt),
+      (g.started = true → g.over = false → Inv S k m g) →
+      gymLoop ag g calls (gymRun S k ag m calls) = true := by
+  intro calls
+  induction calls with
+  | nil => intro m g _; simp [gymRun, gymLoop]
+  | cons c cs ih =>
+    intro m g hI
+    simp only [gymRun, gymLoop]
+    by_cases hprot : (c.isSome && (!g.started || g.over)) = true
+    · simp [hprot]
+    · have hp : c.isSome = true → g.started = true ∧ g.over = false := by
+        intro hc
+        rw [hc] at hprot
+        cases hs : g.started <;> cases ho : g.over <;> simp [hs, ho] at hprot ⊢
+      obtain ⟨h1, h2⟩ := gymCall_sound hW hk hag m g c hI hp
+      simp only [hprot, Bool.false_eq_true, if_false, Bool.and_eq_true]
+      exact ⟨h1, ih _ _ h2⟩
+
+/-- the judge is sound on the scripted family -/
+theorem C15_gym_stub (sc : Script) (k : MKind) (hk : k ≠ .dynamic) (ag : Aid)
+    (hag : (stubSim sc).learners = [ag]) (m : MState StubSt) (calls : List (Option Int)) :
+    gymLoop ag {} calls (gymRun (stubSim sc) k ag m calls) = true := by
+  have hW : WF (stubSim sc) k := stub_WF sc k
+    (fun _ => by
+      have : ag ∈ (stubSim sc).learners := by rw [hag]; simp
+      have := (mem_learners _ ag).mp this
+      exact ⟨ag, this.1, this.2⟩)
+    (fun h => absurd h hk)
+  exact C15_gym_projection _ k hW hk ag hag calls m {} (by intro h; simp at h)
+
+theorem osRun_sound [DecidableEq α] [DecidableEq ω] {S : SimIface σ α ω ι} {k : MKind} (hW : WF S k)
+    (hk : k ≠ .dynamic) (hl : S.learners ≠ []) :
+    ∀ (calls : List (Option (List α))) (st : OSState σ) (gh : OSGhost), OSInv S k st gh →
+      c15Loop k S.n S.learning gh calls (osRun S k st calls) = true := by
+  intro calls
+  induction calls with
+  | nil => intro st gh _; simp [osRun, c15Loop]
+  | cons c cs ih =>
+    intro st gh hI
+    simp only [osRun, c15Loop]
+    by_cases hc : callOK k ((List.range S.n).filter S.learning).length c = true
+    · have hc' : callOK k S.learners.length c = true := hc
+      simp only [hc, Bool.not_true, Bool.false_eq_true, if_false, Bool.and_eq_true]
+      cases c with
+      | none =>
+        obtain ⟨h1, h2⟩ := osReset_sound (α := α) hW hk hl st gh none (by simp)
+        exact ⟨h1, ih _ _ h2⟩
+      | some acts =>
+        obtain ⟨h1, h2⟩ := osStep_sound hW hk hl st gh hI acts hc'
+        exact ⟨h1, ih _ _ h2⟩
+    · simp [hc]
+
+/-- **C15 (OpenSpiel)** for every simulation, both manager kinds and every call sequence. -/
+theorem C15_openspiel [DecidableEq α] [DecidableEq ω] (S : SimIface σ α ω ι) (k : MKind) (hW : WF S k)
+    (hk : k ≠ .dynamic) (hl : S.learners ≠ []) (m0 : MState σ) (calls : List (Option (List α))) :
+    specC15 k S.n S.learning calls (osRun S k { m := m0 } calls) = true :=
+  osRun_sound hW hk hl calls { m := m0 } {} ⟨rfl, rfl, fun h => by cases h⟩
+
+/-! ## Readings -/
+
+section readings
+variable [DecidableEq α] [DecidableEq ω] {k : MKind} {n : Nat} {learning : Aid → Bool} {gh : OSGhost}
+  {call : Option (List α)} {c : OSCall α ω ι} {ts : TimeStep ω}
+
+/-- every learning agent is in every time step's observations, legal actions and rewards -/
+theorem c15_all_learning_present (h : c15Call k n learning gh call c = true) (hr : c.res = .ok ts) :
+    (∀ a, a ∈ keys ts.infoState ↔ a ∈ (List.range n).filter learning) ∧
+    ts.legal = (List.range n).filter learning ∧
+    (∀ r, ts.rewards = some r → ∀ a, a ∈ keys r ↔ a ∈ (List.range n).filter learning) := by
+  simp only [c15Call, hr, Bool.and_eq_true, decide_eq_true_eq, sameSet, List.all_eq_true] at h
+  obtain ⟨⟨⟨⟨⟨h1, h1'⟩, h2⟩, h3⟩, _⟩, _⟩ := h
+  refine ⟨fun a => ⟨h1 a, h1' a⟩, h2, ?_⟩
+  intro r hrw a
+  rw [hrw] at h3
+  simp only [Bool.and_eq_true, List.all_eq_true, decide_eq_true_eq] at h3
+  exact ⟨h3.1 a, h3.2 a⟩
+
+/-- a step that is not a restart forwards exactly one accepted manager step, whose actions are those
+of agents not yet done; the time step is LAST exactly when the manager reported `__all__` -/
+theorem c15_one_manager_step (h : c15Call k n learning gh call c = true) (hr : c.res = .ok ts)
+    (hns : gh.shouldReset = false) {acts : List α} (hcall : call = some acts) :
+    ∃ e sent out, c.mgrCalls = [e] ∧ e.op = .step sent ∧ e.res = .stepOk out ∧
+      (∀ p ∈ sent, p.1 ∉ gh.g.R ∨ k = .turnBased) ∧
+      (ts.stepType = .last ↔ out.allDone = true) := by
+  simp only [c15Call, hr, hcall, hns, Option.isNone_some, Bool.or_self, Bool.false_eq_true, if_false,
+    Bool.and_eq_true] at h
+  obtain ⟨⟨_, h4⟩, _⟩ := h
+  cases hm : c.mgrCalls with
+  | nil => simp [hm] at h4
+  | cons e rest =>
+    cases rest with
+    | cons _ _ => simp [hm] at h4
+    | nil =>
+      rw [hm] at h4
+      cases hop : e.op with
+      | reset => simp [hop] at h4
+      | step sent =>
+        cases hres : e.res with
+        | resetOk _ => simp [hop, hres] at h4
+        | err _ => simp [hop, hres] at h4
+        | stepOk out =>
+          simp only [hop, hres, Bool.and_eq_true, decide_eq_true_eq] at h4
+          refine ⟨e, sent, out, rfl, hop, hres, ?_, ?_⟩
+          · intro p hp
+            by_cases hkt : k = .turnBased
+            · exact Or.inr hkt
+            · left
+              have hkt' : (k == MKind.turnBased) = false := by simpa using hkt
+              have hs := h4.1.1.1
+              simp only [hkt', Bool.false_eq_true, if_false, decide_eq_true_eq] at hs
+              rw [hs] at hp
+              simpa using (List.mem_filter.mp hp).2
+          · rw [h4.1.1.2]
+            cases out.allDone <;> simp
+
+/-- in turn-based play the current player of a non-final time step has not been reported done -/
+theorem c15_current_player_live (h : c15Call .turnBased n learning gh call c = true) (hr : c.res = .ok ts)
+    (hnl : ts.stepType ≠ .last) :
+    ts.current < n ∧ learning ts.current = true ∧ ts.current ∉ (foldG gh.g c.mgrCalls).R := by
+  simp only [c15Call, hr, Bool.and_eq_true] at h
+  have h5 := h.2
+  simp only [beq_self_eq_true, Bool.not_true, Bool.false_or, Bool.or_eq_true, decide_eq_true_eq,
+    Bool.and_eq_true, isLearner] at h5
+  rcases h5 with h5 | h5
+  · exact absurd h5 hnl
+  · exact ⟨h5.1.1, h5.1.2, h5.2⟩
+
+end readings
+
+/-- the judge is sound on the scripted family -/
+theorem C15_stub (sc : Script) (k : MKind) (hk : k ≠ .dynamic) (m0 : MState StubSt)
+    (hl : ∃ a < sc.n, sc.learning.getD a false = true) (calls : List (Option (List Int))) :
+    specC15 k sc.n (stubSim sc).learning calls (osRun (stubSim sc) k { m := m0 } calls) = true := by
+  have hW : WF (stubSim sc) k := stub_WF sc k (fun _ => hl) (fun h => absurd h hk)
+  have hne : (stubSim sc).learners ≠ [] := by
+    obtain ⟨a, ha, hla⟩ := hl
+    intro he
+    have : a ∈ (stubSim sc).learners := (mem_learners _ a).mpr ⟨ha, hla⟩
+    rw [he] at this; cases this
+  exact C15_openspiel _ k hW hk hne m0 calls
+
+/-- non-vacuity: a turn-based play-through in which an agent finishes on its first move (the F5
+layout) reaches LAST, with one manager call per adapter call -/
+example :
+    let sc : Script := { n := 3, learning := [true, true, true], doneAt := [1, 9, 9], finishAt := 4, noms := [] }
+    let calls : List (Option (List Int)) := List.replicate 6 (some [1])
+    let tr := osRun (stubSim sc) .turnBased { m := mgrInit {} false [] } calls
+    (tr.map fun c => c.mgrCalls.length) = [1, 1, 1, 1, 1, 1] ∧
+    (tr.any fun c => match c.res with | .ok ts => decide (ts.stepType = .last) | _ => false) = true ∧
+    specC15 .turnBased 3 (stubSim sc).learning calls tr = true := by decide
+
+end Abmarl
